@@ -10,6 +10,8 @@ import (
 	"time"
 
 	tcpip "github.com/brewlin/net-protocol/protocol"
+	"github.com/brewlin/net-protocol/protocol/network/ipv4"
+	"github.com/brewlin/net-protocol/protocol/network/ipv6"
 	"github.com/brewlin/net-protocol/protocol/transport/tcp"
 	"verifh/fw"
 	"verifh/rawpeer"
@@ -47,7 +49,7 @@ func genCfg(seed int64, k int) cfg {
 	c.MSS = []uint16{0, 1, 88, 536, 1000, 1460, 1460, 8960, 65535, uint16(1 + r.Intn(3000))}[r.Intn(10)]
 	c.WS = []int{-1, -1, 0, 1, 2, 7, 14, 15}[r.Intn(8)]
 	c.Window = []uint16{0, 1, 87, 535, 1000, 4096, 30000, 65535, uint16(r.U32())}[r.Intn(9)]
-	c.RcvBuf = []int{0, 4096, 8192, 30000}[r.Intn(4)]
+	c.RcvBuf = []int{0, 4096, 8192, 30000, 70000, 131072, 300000}[r.Intn(7)] // the larger ones make the stack scale its own window
 	pool := []uint32{0, 1, 1<<31 - 5, 1 << 31, 1<<32 - 5, 1<<32 - 1}
 	c.PeerISS, c.OwnISS = r.U32(), r.U32()
 	if r.Bool() {
@@ -153,6 +155,7 @@ func scenario(c cfg) {
 			}
 		}
 	}
+	pathMTU := 0 // smallest next-hop MTU an ICMP error has reported for this connection
 	checkEmitted := func(segs []rawpeer.Seg, ctx string) {
 		for _, s := range segs {
 			if s.Err != nil {
@@ -184,6 +187,10 @@ func scenario(c cfg) {
 				}
 				if s.IPLen > int(c.MTU) {
 					viol("send/exceeds-mtu", fmt.Sprintf("%s: packet of %d bytes on a link with MTU %d", ctx, s.IPLen, c.MTU))
+					return
+				}
+				if pathMTU > 0 && s.IPLen > pathMTU {
+					viol("send/exceeds-path-mtu", fmt.Sprintf("%s: packet of %d bytes (stream bytes [%d,%d)) after the path reported a next-hop MTU of %d", ctx, s.IPLen, rel, end, pathMTU))
 					return
 				}
 				_ = hdr
@@ -250,7 +257,35 @@ func scenario(c cfg) {
 	}
 	windows := []uint16{0, 0, 1, uint16(conn.PeerMSS - 1), uint16(conn.PeerMSS), 1000, 4000, 20000, 65535}
 	for step := 0; step < c.Steps && !bad; step++ {
-		switch r.Intn(13) {
+		switch r.Intn(14) {
+		case 13: // a router on the path reports a smaller MTU (fragmentation needed / packet too big)
+			if written == 0 {
+				continue
+			}
+			m := []int{1400, 1280, 1200, 1006, 900, 576}[r.Intn(6)]
+			if c.V6 && m < 1280 {
+				m = 1280
+			}
+			if m >= int(c.MTU) || (pathMTU > 0 && m >= pathMTU) {
+				continue
+			}
+			quoted := rfc.TCP{SrcPort: conn.LPort, DstPort: conn.PPort, Seq: conn.ISS + 1 + uint32(peerGot), Flags: rfc.ACK}
+			if c.V6 {
+				q := rfc.IPv6{Next: rfc.ProtoTCP, Hop: 60, Src: p.Stack6, Dst: p.Peer6, Payload: quoted.Bytes6(p.Stack6, p.Peer6, true)}.Bytes(true)
+				msg := rfc.ICMP{Type: 2, Rest: [4]byte{0, 0, byte(m >> 8), byte(m)}, Payload: q}
+				ip := rfc.IPv6{Next: rfc.ProtoICMPv6, Hop: 64, Src: p.Peer6, Dst: p.Stack6, Payload: msg.BytesV6(p.Peer6, p.Stack6, true)}
+				h.L.Inject(ipv6.ProtocolNumber, ip.Bytes(true), "")
+			} else {
+				q := rfc.IPv4{TTL: 60, Proto: rfc.ProtoTCP, Src: p.Stack4, Dst: p.Peer4, Payload: quoted.Bytes4(p.Stack4, p.Peer4, true)}.Bytes(true)
+				msg := rfc.ICMP{Type: 3, Code: 4, Rest: [4]byte{0, 0, byte(m >> 8), byte(m)}, Payload: q[:28]}
+				ip := rfc.IPv4{TTL: 64, Proto: rfc.ProtoICMP, ID: uint16(step), Src: p.Peer4, Dst: p.Stack4, Payload: msg.BytesV4(true)}
+				h.L.Inject(ipv4.ProtocolNumber, ip.Bytes(true), "")
+			}
+			rawpeer.Settle()
+			pathMTU = m
+			tr("ICMP: next-hop MTU %d", m)
+			run.Count("path_mtu_decreases", 1)
+			checkEmitted(conn.Take(), "after the path MTU decreased")
 		case 0, 1, 2: // application write
 			n := []int{1, 10, 536, 1460, 5000, 70000, 1 << 20}[r.Intn(7)]
 			if written > 3<<20 {
@@ -416,7 +451,7 @@ func scenario(c cfg) {
 	}
 	if !reading && !bad && maxAdvEdge >= 0 {
 		// drive the window shut: keep sending in-window data while the reader is stopped
-		for i := 0; i < 400 && maxAdvEdge-peerSent > 0 && !bad; i++ {
+		for i := 0; i < 1200 && maxAdvEdge-peerSent > 0 && !bad; i++ {
 			n := int64(1400)
 			if room := maxAdvEdge - peerSent; n > room {
 				n = room
@@ -432,7 +467,7 @@ func scenario(c cfg) {
 		}
 		if !bad {
 			if maxAdvEdge-peerSent > 0 {
-				run.Count("window_did_not_close_within_400_segments", 1)
+				run.Count("window_did_not_close_within_1200_segments", 1)
 			} else {
 				run.Count("window_close_events", 1)
 				if r.Chance(1, 3) {
